@@ -140,4 +140,18 @@ CHECKS = {
             R("TestC04_Isolation", 2400, 60000, shards=16),
         ],
     ),
+    "C02": dict(
+        level="fault_enumeration",
+        rule=("SingleFaults (exhaustive): 10 fixed step scenarios (plain step; first step with configured start; first step at the head; reorg unwinding 1 and 3 positions; reorg with batch 3; step with a reference lookup; with notifications; concurrency 3; transaction indexing with receipts). Each is run fault-free once to record the I/O operations of the observed step "
+              "(every fakepg operation: begin, each statement, COPY start, COPY end, commit, rollback; every JSON-RPC HTTP request), then re-run from scratch once per (operation x fault kind): database {error reply, connection drop before executing, drop after executing but before the reply, process death before/after}, RPC {503, closed connection, invalid JSON, truncated body, process death}. "
+              "Oracle: the Auditor runs inside fakepg's commit hook (every observable state), after the faulted step, and after the restart: for every pair no row lies beyond the recorded position and the rows are exactly those of the blocks first..position in the versions indexed; after the fault clears, retrying reaches the head with table == projection of the canonical chain. "
+              "MultiFault: rapid histories (grow / reorg / restart / step with 0-3 random faults at random operation indexes) with the same Auditor. non-trivial = the fault fired at a write (COPY, cursor insert/delete) or at a commit."),
+        exhaustive_keys=["SingleFaults:exhaustive_single_faults"],
+        assumptions=["fakepg models read-committed transactions, rollback on connection loss and the ambiguous-commit case (commit applied, reply lost); lock waits between concurrent transactions are not modelled",
+                     "'process death' = all connections closed and pool, tasks, clients and caches rebuilt from configuration"],
+        units=[
+            P("TestC02_SingleFaults", shards=10),
+            R("TestC02_MultiFault", 1600, 40000, shards=16),
+        ],
+    ),
 }
